@@ -101,6 +101,17 @@ CHECKS['C08'] = ('syncsim', 'exploration', '4',
     'stale read is the C03/C04 known finding); drop() without an archive: observed outcome adopted',
     TECH % ('interleavings of cache/archive mutations and dump/load/sync/toggle/open/drop', 'a two-dict executable model after every step'))
 
+CHECKS['C17'] = ('sessions', 'exploration', '4',
+    "chains of 2-3 exec'd interpreters on one persistent archive; the scheduler gives each session its own PYTHONHASHSEED, "
+    'extra imports, junk objects, unrelated earlier cache traffic, cwd and its own spelling of every call (keyword order, '
+    'defaults spelled or not, positional vs keyword); key() of every call must be byte-identical in all sessions and later '
+    'sessions must be served by loads without any evaluation, for raw/string/pickle/json/md5/sha1 keymaps x flat x typed x '
+    'sentinel over every persistent backend',
+    "samples chains; arguments restricted to values whose repr/pickle is process independent; ~0.3 s per exec'd session "
+    'bounds the number of chains',
+    "deterministic simulation with fault injection: seeded chains of exec'd interpreter sessions (hash seed, process state "
+    'and call spelling chosen by the scheduler), keys and load/miss outcomes compared across sessions')
+
 NA = [
     ('C09', 'pure function of (signature, call form, keymap options): no history, schedule, clock, fault or restart for a simulator to vary; DESIGN.md section 5'),
     ('C10', 'pure function of a pair of calls and keymap options; the only process-dependent aspect (hash randomisation) is covered under C17; DESIGN.md section 5'),
